@@ -35,10 +35,32 @@ type randRow struct {
 }
 
 func fieldSink(d string) func(string, string) bool {
-	return func(t, _ string) bool { return t == d }
+	return func(t, _ string) bool { return t == d || t == canonOwner(d) }
 }
 func mapSink(m, k string) func(string, string) bool {
-	return func(t, key string) bool { return t == m && (k == "" || key == k) }
+	return func(t, key string) bool {
+		return (t == m || t == canonOwner(m)) && (k == "" || key == k || key == canonOwner(k))
+	}
+}
+
+// canonOwner: a freshly created object of a module type and a received one have the same owner type
+// (`new:pkg.T.f` and `<pkg.T>.f`): inside a helper method the builder under construction is the receiver.
+func canonOwner(d string) string {
+	if strings.HasPrefix(d, "new:") {
+		rest := d[4:]
+		end := len(rest)
+		// the type name ends at the first '.' after the package qualifier or at '['
+		dot := strings.Index(rest, ".")
+		if dot >= 0 {
+			j := dot + 1
+			for j < len(rest) && rest[j] != '.' && rest[j] != '[' {
+				j++
+			}
+			end = j
+		}
+		return "<" + rest[:end] + ">" + rest[end:]
+	}
+	return d
 }
 
 var nbD = "new:gabi.DisclosureProofBuilder"
@@ -84,18 +106,137 @@ type sinkInfo struct {
 	ins         ssa.Instruction
 	target, key string
 	val         ssa.Value
+	// captured while the helper's parameters were bound to the call's arguments:
+	genArg   string // affine form of the first argument when val is the result of a generator call
+	loopColl string // descriptor of the collection the innermost enclosing loop walks ("" if none)
+	valDesc  string
 }
 
-func sinksOf(fn *ssa.Function) []sinkInfo {
+// sinksOf: the stores and map updates of fn and of the same-package helpers it calls (a constructor's
+// randomiser loop may have been extracted into a helper). Targets inside a helper are described in the
+// caller's terms: plain parameters are bound to the call's arguments, and a container that the helper
+// creates and returns is named after the place the caller stores it in.
+func sinksOf(fn *ssa.Function) []sinkInfo { return sinksDirect(fn) }
+
+func sinksOfDeep(fn *ssa.Function) []sinkInfo { return sinksDeep(fn, 2, map[*ssa.Function]bool{}) }
+
+func sinksDirect(fn *ssa.Function) []sinkInfo {
 	var out []sinkInfo
 	allInstrs(fn, func(i ssa.Instruction) {
+		var s sinkInfo
 		switch x := i.(type) {
 		case *ssa.Store:
-			out = append(out, sinkInfo{x, desc(x.Addr), "", x.Val})
+			s = sinkInfo{ins: x, target: desc(x.Addr), val: x.Val}
 		case *ssa.MapUpdate:
-			out = append(out, sinkInfo{x, desc(x.Map), desc(x.Key), x.Value})
+			s = sinkInfo{ins: x, target: desc(x.Map), key: desc(x.Key), val: x.Value}
+		default:
+			return
 		}
+		s.valDesc = desc(s.val)
+		if g := genCallOf(s.val); g != nil && len(g.Call.Args) > 0 {
+			if a, ok := affineOf(g.Call.Args[0]); ok {
+				s.genArg = a.String()
+			}
+		}
+		if l := innermostLoopOf(i.Block()); l != nil {
+			s.loopColl = loopCollectionDesc(l)
+		}
+		out = append(out, s)
 	})
+	return out
+}
+
+// loopCollectionDesc: the collection a loop walks: `range X` or `i < len(X)`; a counted loop `i < n` gives "#n".
+func loopCollectionDesc(l *Loop) string {
+	for b := range l.Body {
+		for _, ins := range b.Instrs {
+			if nx, ok := ins.(*ssa.Next); ok && (b == l.Header || l.Header.Dominates(b)) {
+				if r, ok := nx.Iter.(*ssa.Range); ok && innermostLoopOf(b) != nil && innermostLoopOf(b).Header == l.Header {
+					return desc(r.X)
+				}
+			}
+		}
+	}
+	for _, ins := range l.Header.Instrs {
+		if bo, ok := ins.(*ssa.BinOp); ok && bo.Op == token.LSS {
+			if c, ok := bo.Y.(*ssa.Call); ok && isCallTo(c, "builtin:len") {
+				return desc(c.Call.Args[0])
+			}
+		}
+	}
+	// rotated loops test at the latch
+	for _, lb := range l.Latch {
+		for _, ins := range lb.Instrs {
+			if bo, ok := ins.(*ssa.BinOp); ok && bo.Op == token.LSS {
+				if c, ok := bo.Y.(*ssa.Call); ok && isCallTo(c, "builtin:len") {
+					return desc(c.Call.Args[0])
+				}
+			}
+		}
+	}
+	return ""
+}
+
+func sinksDeep(fn *ssa.Function, depth int, seen map[*ssa.Function]bool) []sinkInfo {
+	if fn == nil || fn.Blocks == nil || seen[fn] {
+		return nil
+	}
+	seen[fn] = true
+	defer delete(seen, fn)
+	out := sinksDirect(fn)
+	if depth <= 0 {
+		return out
+	}
+	for _, c := range callsIn(fn) {
+		h := staticCallee(c)
+		if h == nil || !inModuleFn(h) || h.Blocks == nil || h.Pkg != fn.Pkg || isBigWrapperFn(h) || h == fn {
+			continue
+		}
+		if h.Object() != nil && h.Object().Exported() && h.Parent() == nil {
+			continue
+		}
+		// where does the caller put what the helper returns?
+		retTarget := map[int]string{}
+		if call, ok := c.(*ssa.Call); ok {
+			for _, r := range referrersOf(call) {
+				switch u := r.(type) {
+				case *ssa.Store:
+					if u.Val == ssa.Value(call) {
+						retTarget[0] = desc(u.Addr)
+					}
+				case *ssa.Extract:
+					for _, rr := range referrersOf(u) {
+						if st, ok := rr.(*ssa.Store); ok && st.Val == ssa.Value(u) {
+							retTarget[u.Index] = desc(st.Addr)
+						}
+					}
+				}
+			}
+		}
+		bindCall(c, h, func() {
+			sub := sinksDeep(h, depth-1, seen)
+			// containers created in the helper and returned
+			rename := map[string]string{}
+			for _, r := range returnsOf(h) {
+				for k, v := range r.Results {
+					if t, ok := retTarget[k]; ok {
+						switch o := origin(v).(type) {
+						case *ssa.MakeMap, *ssa.MakeSlice, *ssa.Alloc:
+							rename[desc(o.(ssa.Value))] = t
+						}
+					}
+				}
+			}
+			for _, s := range sub {
+				for from, to := range rename {
+					if s.target == from || strings.HasPrefix(s.target, from+".") || strings.HasPrefix(s.target, from+"[") {
+						s.target = to + strings.TrimPrefix(s.target, from)
+					}
+				}
+				out = append(out, s)
+			}
+		})
+	}
 	return out
 }
 
@@ -118,8 +259,8 @@ func randomizerSourceRule(P *Program, R *Report) {
 			continue
 		}
 		n := 0
-		for _, s := range sinksOf(fn) {
-			if !row.Sink(s.target, s.key) {
+		for _, s := range sinksOfDeep(fn) {
+			if !row.Sink(canonOwner(s.target), canonOwner(s.key)) && !row.Sink(s.target, s.key) {
 				continue
 			}
 			n++
@@ -132,11 +273,10 @@ func randomizerSourceRule(P *Program, R *Report) {
 			ok := calleeName(g) == row.Gen
 			detail := "generator " + calleeName(g)
 			if row.Arg != "" && ok {
-				a, aok := affineOf(g.Call.Args[0])
-				ok = aok && a.String() == parseAffine(row.Arg).String()
-				detail += " length " + a.String() + " want " + parseAffine(row.Arg).String()
+				ok = s.genArg == parseAffine(row.Arg).String()
+				detail += " length " + s.genArg + " want " + parseAffine(row.Arg).String()
 			}
-			if ok && g.Parent() != fn {
+			if ok && g.Parent() != fn && g.Parent() != s.ins.Parent() {
 				ok, detail = false, "generator call is in another function"
 			}
 			if ok && row.InLoop {
@@ -213,27 +353,52 @@ func randomizerSourceRule(P *Program, R *Report) {
 func attrRandomizerWritesRule(P *Program, R *Report) {
 	rule := "C07.b"
 	n := 0
+	dpbC := "<gabi.DisclosureProofBuilder>"
+	// the helpers of the constructor (if any) are visited from it, with their parameters bound
+	viaConstructor := map[ssa.Instruction]sinkInfo{}
+	if cf := P.Func(kCredBuilder); cf != nil {
+		for _, s := range sinksOfDeep(cf) {
+			viaConstructor[s.ins] = s
+		}
+	}
 	for _, fn := range P.AllFuncs {
-		for _, s := range sinksOf(fn) {
+		for _, s0 := range sinksOf(fn) {
+			s := s0
+			if v, ok := viaConstructor[s.ins]; ok {
+				s = v // described in the constructor's terms
+			}
 			if !strings.HasSuffix(s.target, ".attrRandomizers") || s.key == "" {
 				continue
 			}
 			n++
 			key := FuncKey(fn)
-			c := fmt.Sprintf("%s:attrRandomizers[%s]", key, s.key)
-			ok, why := false, "untabled write to attrRandomizers: value "+desc(s.val)
+			_, inCtor := viaConstructor[s.ins]
+			c := fmt.Sprintf("%s:attrRandomizers[%s]", key, canonOwner(s.key))
+			ok, why := false, "untabled write to attrRandomizers: value "+s.valDesc
+			ck := canonOwner(s.key)
 			switch {
-			case key == kCredBuilder && s.key == nbD+".undisclosedAttributes[#i]":
+			case inCtor && (ck == dpbC+".undisclosedAttributes[#i]" || ck == dpbC+".undisclosedAttributes[*]"):
 				ok = genCallOf(s.val) != nil
 				why = "constructor loop"
 			case key == kDPBCommit && s.key == "0":
-				ok = desc(s.val) == `arg#1["secretkey"]`
-				why = "shared secret-key randomiser, got " + desc(s.val)
-			case key == kCredBuilder && s.key == "call:gabi.(*Credential).NonrevIndex(<gabi.Credential>)#0":
-				ok = desc(s.val) == nbD+".nonrevBuilder.randomizer"
-				why = "revocation attribute randomiser, got " + desc(s.val)
+				ok = s.valDesc == `arg#1["secretkey"]`
+				why = "shared secret-key randomiser, got " + s.valDesc
+			case inCtor && s.key == "call:gabi.(*Credential).NonrevIndex(<gabi.Credential>)#0":
+				ok = canonOwner(s.valDesc) == dpbC+".nonrevBuilder.randomizer"
+				why = "revocation attribute randomiser, got " + s.valDesc
 			}
 			R.decide(rule, c, "write to attrRandomizers is one of the three tabled ones", ok, why, P.Pos(s.ins.Pos()))
+		}
+	}
+	// a map built by a helper and installed as attrRandomizers as a whole
+	for _, s := range viaConstructor {
+		if _, isMU := s.ins.(*ssa.MapUpdate); isMU && strings.HasSuffix(s.target, ".attrRandomizers") && s.ins.Parent() != P.Func(kCredBuilder) {
+			if _, counted := s.ins.(*ssa.MapUpdate); counted && !strings.HasSuffix(desc(s.ins.(*ssa.MapUpdate).Map), ".attrRandomizers") {
+				n++
+				ck := canonOwner(s.key)
+				ok := (ck == dpbC+".undisclosedAttributes[#i]" || ck == dpbC+".undisclosedAttributes[*]") && genCallOf(s.val) != nil
+				R.decide(rule, fmt.Sprintf("%s:attrRandomizers[%s]", FuncKey(s.ins.Parent()), ck), "write to attrRandomizers is one of the three tabled ones", ok, "map built for the constructor: value "+s.valDesc, P.Pos(s.ins.Pos()))
+			}
 		}
 	}
 	R.decide(rule, "writes:count", "the three tabled writes exist", n >= 3, fmt.Sprintf("%d writes", n), "")
